@@ -984,3 +984,200 @@ def t_declarator_state(facts, res, tier):
 def scopes_pat_names(p):
     from scopes import pat_bindings
     return [b.name for b in pat_bindings(p, "pat")] if isinstance(p, dict) else []
+
+
+# ----------------------------------------------------------------------------- C15 / C01 (both bytes of a 16-bit assignment)
+
+
+@rule("T-TWO-PASS", floor=4,
+      text="an assignment to a 16-bit destination is generated in two passes: the low byte first, then - under `if !high_byte`, after the destination's "
+           "type has been looked at - the same evaluation with high_byte = true ending in `generate_assign(.., true)`.  In every arm of generate_expr "
+           "that has this second pass, nothing between the first pass and the test of the destination's type leaves the arm (`return`, `?` on "
+           "anything but the generator calls of the passes themselves is not judged): an exit there, however it is motivated (an operand that is "
+           "\"only 8 bits wide\" still has a sign to extend), stores the low byte of a 16-bit variable and leaves its high byte as it was, while the "
+           "spelled-out form `x = x op e` goes through both passes")
+def t_two_pass(facts, res, tier):
+    fn = facts.fn("generate_expr", genmodel.GEN_QUAL)
+    par = _parents(fn["body"])
+    n = 0
+    for c in walk(fn["body"]):
+        if not (_self_call(c, ("generate_assign",)) and c.get("args") and c["args"][-1].get("k") == "lit" and c["args"][-1].get("v") is True):
+            continue
+        # the enclosing `if !high_byte`
+        q = c
+        guard = None
+        arm = None
+        while q is not None:
+            pq, kq, iq = par.get(id(q), (None, None, None))
+            if pq is not None and pq.get("k") == "if" and kq == "then" and expr_text(pq["cond"]).replace(" ", "").strip("()") == "!high_byte" and guard is None:
+                guard = pq
+            if pq is not None and kq == "arms" and arm is None and guard is not None:
+                arm = q
+            q = pq
+        if guard is None or arm is None:
+            continue
+        n += 1
+        armname = pat_text(arm["pat"]).replace(" ", "")[:50]
+        key = "T-TWO-PASS:%s" % armname
+        # statements of the guard's block before the one that holds the second pass
+        stmts = guard["then"].get("stmts") or []
+        idx = next(i for i, st in enumerate(stmts) if any(x is c for x in walk(st)))
+        early = [x for st in stmts[:idx] for x in walk(st) if x.get("k") == "return"]
+        # and, in the statement that holds it, a return that is not inside the type test's consequence
+        res.inst(key, True, {"arm": armname, "statements_before_the_type_test": idx, "exits_before": len(early)})
+        for x in early:
+            res.fail(key, facts.where(fn, x), "generate_expr, arm %s: a `return` between the low-byte pass and the high-byte pass: a 16-bit destination keeps its old high byte on that path (`s |= d` with a negative signed char d), unlike `s = s | d`" % armname)
+    if n == 0:
+        raise AnchorMissing("generate_expr: no arm with a second pass (generate_assign(.., true) under `if !high_byte`) found")
+    res.note("%d second-pass sites" % n)
+
+
+# ----------------------------------------------------------------------------- C13 (every statement is generated)
+
+
+@rule("T-STMT-ALL", floor=2,
+      text="the generator walks a list of statements (the body of a block, of a switch case) with a loop that hands every element to "
+           "generate_statement: that call is a statement of the loop body itself, not of a branch inside it.  A statement that is skipped - "
+           "because it \"cannot be reached\" after a return, say - may hold the label of a goto emitted earlier (`JMP .again` with no `.again`), "
+           "or a case label, a loop label, an inline function's `.endof`")
+def t_stmt_all(facts, res, tier):
+    n = 0
+    for fn in genmodel.gen_fns(facts):
+        for lp in walk(fn["body"]):
+            if lp.get("k") != "for":
+                continue
+            lv = scopes_pat_names(lp.get("pat"))
+            calls = [x for x in walk(lp["body"]) if _self_call(x, ("generate_statement",)) and x.get("args") and any(_mentions(x["args"][0], v) for v in lv)]
+            if not calls:
+                continue
+            n += 1
+            key = "T-STMT-ALL:%s:%s" % (fn["name"], expr_text(lp.get("iter") or {}).replace(" ", "")[:30])
+            top = []
+            for st in lp["body"].get("stmts") or []:
+                e = st
+                while isinstance(e, dict) and e.get("k") in ("try", "paren"):
+                    e = e["e"]
+                if any(e is c for c in calls):
+                    top.append(st)
+            leaves = [x for x in walk(lp["body"]) if x.get("k") in ("continue", "break")]
+            res.inst(key, True, {"function": fn["name"], "list": expr_text(lp.get("iter") or {})[:40], "unconditional": bool(top), "skips": len(leaves)})
+            if not top:
+                res.fail(key, facts.where(fn, calls[0]), "%s generates the statements of `%s` under a condition: a skipped statement may define a label that code already emitted jumps to" % (fn["name"], expr_text(lp.get("iter") or {})[:40]))
+            for x in leaves:
+                res.fail(key, facts.where(fn, x), "%s leaves or skips an iteration of the loop over `%s`: the remaining statements are not generated" % (fn["name"], expr_text(lp.get("iter") or {})[:40]))
+    if n == 0:
+        raise AnchorMissing("no loop handing statements to generate_statement found")
+
+
+@rule("T-SEQ-CALL", floor=2,
+      text="the part of T-SEQ-POINT that concerns a call, run on its own under the properties a call's arguments can break without the other "
+           "sequence points mattering (an inlined and an out-of-line call must agree): in generate_function_call each argument assignment is "
+           "evaluated for its effect and the next thing emitted - the JSR or the expansion of the inline body alike - comes after the purge of "
+           "what the arguments left pending, and that purge starts at a mark taken before the arguments")
+def t_seq_call(facts, res, tier):
+    from core import Result
+    tmp = Result()
+    t_seq_point(facts, tmp, tier)
+    for key, nt, sample in tmp.instances:
+        if ":generate_function_call:" in key:
+            res.inst(key.replace("T-SEQ-POINT", "T-SEQ-CALL", 1), nt, sample)
+    for v in tmp.violations:
+        if ":generate_function_call:" in v.key:
+            res.fail(v.key.replace("T-SEQ-POINT", "T-SEQ-CALL", 1), v.where, v.msg, getattr(v, "detail", None))
+
+
+# ----------------------------------------------------------------------------- C16 / C13 (a verdict only while nothing was emitted)
+
+
+@rule("T-COND-AFTER-BRANCH", floor=8,
+      text="generate_condition may answer a constant condition with a verdict (Some(b)) instead of code, and its callers then emit no label for it.  In "
+           "the && / || arms that is only sound while nothing has been emitted for the condition: the second operand is evaluated with the caller's "
+           "`immediate_special` only inside `if let Some(..) = <result of the first operand>` (the first operand was a constant too); where the first "
+           "operand has emitted its branch (its result was None) the second one is evaluated with `immediate_special = false`, so the whole condition "
+           "answers None and the label the emitted branch goes to is defined (`X = (i && 1) ? 3 : 4;` left `BEQ .else1` without `.else1` and "
+           "check_branches hit unreachable!())")
+def t_cond_after_branch(facts, res, tier):
+    from scopes import scoped
+    fns = [f for f in genmodel.gen_fns(facts) if any(p.get("name") == "immediate_special" for p in f["params"])]
+    n = 0
+    for f in fns:
+        sc = scoped(f)
+        # results of a first operand: `let cond = self.generate_condition(lhs, ..)?`
+        for node, env, doms in sc:
+            if not (_self_call(node, ("generate_condition", "generate_simple_condition")) and len(node.get("args", [])) >= 5):
+                continue
+            first = expr_text(node["args"][0]).replace(" ", "")
+            if first != "rhs":
+                continue
+            # was a first operand evaluated before, in this arm?
+            firsts = [d for d in doms if d[0] == "stmt" and d[1].get("k") == "let" and any(_self_call(x, ("generate_condition", "generate_simple_condition")) and expr_text(x["args"][0]).replace(" ", "") == "lhs" for x in walk(d[1].get("init") or {}))]
+            if not firsts:
+                continue
+            cname = firsts[-1][1]["pat"].get("name")
+            n += 1
+            inside_some = any(d[0] == "arm" and expr_text(d[1]).replace(" ", "") == cname and pat_text(d[2]).replace(" ", "").startswith("Some(") for d in doms)
+            last = node["args"][4]
+            lit_false = last.get("k") == "lit" and last.get("v") is False
+            key = "T-COND-AFTER-BRANCH:%s:%s" % (f["name"], "verdict-known" if inside_some else "branch-emitted")
+            res.inst(key, True, {"function": f["name"], "first_operand_result": cname, "inside_if_let_Some": inside_some, "immediate_special": expr_text(last)})
+            if not inside_some and not lit_false:
+                res.fail(key, facts.where(f, node), "%s evaluates the second operand with immediate_special = `%s` where the first operand may have emitted its branch: a constant second operand then yields a verdict, the caller emits no label, and the branch already emitted has no target" % (f["name"], expr_text(last)))
+    if n == 0:
+        raise AnchorMissing("no second-operand evaluation of && / || found")
+
+
+# ----------------------------------------------------------------------------- C17 (which variables are split-port RAM)
+
+
+@rule("T-ONCHIP-CLASS", floor=1,
+      text="a variable declared in `bankN` without a definition has nothing to put in ROM: it is RAM of that bank, reached through two ports, and the "
+           "code generator applies the port rules to the class MemoryOnChip only.  The conversion ROM(bank) -> MemoryOnChip(bank) in the declaration "
+           "code is guarded by exactly two tests - no definition, class is ROM(bank) - so that afterwards `no definition` implies `not ROM`; a further "
+           "condition (constness: every array is const) leaves a RAM array in class ROM, its stores go to the read port and the builder does not "
+           "allocate it")
+def t_onchip_class(facts, res, tier):
+    from scopes import scoped
+    n = 0
+    for fn in facts.fns:
+        if fn.get("test") or not fn["file"].endswith("compile.rs"):
+            continue
+        if "MemoryOnChip" not in expr_text(fn["body"]):
+            continue
+        for node, env, doms in scoped(fn):
+            if not (node.get("k") == "assign" and "MemoryOnChip" in expr_text(node["r"]) and expr_text(node["l"]).replace(" ", "") == "memory"):
+                continue
+            n += 1
+            key = "T-ONCHIP-CLASS:%s" % fn["name"]
+            guards = []
+            for d in doms:
+                if d[0] == "cond":
+                    guards += [("cond", expr_text(x).replace(" ", "").strip("()"), d[2]) for x in _conjuncts(d[1])]
+                elif d[0] == "arm" and expr_text(d[1]).replace(" ", "") in ("memory", "&memory"):
+                    guards.append(("arm", pat_text(d[2]).replace(" ", ""), True))
+            # only the guards inside the innermost statement-level `if` chain that tests the definition count
+            tests = [g for g in guards if g[0] == "cond" and re.match(r"^def==VariableDefinition::None$", g[1]) and g[2]]
+            roms = [g for g in guards if g[0] == "arm" and re.match(r"^VariableMemory::ROM\(\w+\)$", g[1])]
+            # conditions that entered the same `if` as the definition test
+            extra = []
+            for d in doms:
+                if d[0] == "cond" and any(re.match(r"^def==VariableDefinition::None$", expr_text(x).replace(" ", "").strip("()")) for x in _conjuncts(d[1])):
+                    extra += [expr_text(x).replace(" ", "") for x in _conjuncts(d[1]) if not re.match(r"^def==VariableDefinition::None$", expr_text(x).replace(" ", "").strip("()"))]
+            # && chains are split into separate cond entries by scoped(): collect the conds between the definition test and the assignment
+            idx = [i for i, d in enumerate(doms) if d[0] == "cond" and re.match(r"^def==VariableDefinition::None$", expr_text(d[1]).replace(" ", "").strip("()"))]
+            if idx:
+                extra += [expr_text(d[1]).replace(" ", "") for d in doms[idx[-1] + 1:] if d[0] == "cond"]
+            res.inst(key, True, {"function": fn["name"], "definition_test": bool(tests), "rom_pattern": bool(roms), "other_conditions": extra})
+            if not tests or not roms:
+                res.fail(key, facts.where(fn, node), "%s: the conversion to MemoryOnChip is not under `def == VariableDefinition::None` and `VariableMemory::ROM(bank) = memory`" % fn["name"])
+            for e in extra:
+                res.fail(key, facts.where(fn, node), "%s converts a bank-resident variable without definition to split-port RAM only when `%s` also holds: the others stay in class ROM, the port rules are not applied to them and the builders do not allocate them" % (fn["name"], e[:60]))
+    if n == 0:
+        raise AnchorMissing("no conversion to VariableMemory::MemoryOnChip found")
+
+
+def _conjuncts(e):
+    while isinstance(e, dict) and e.get("k") == "paren":
+        e = e["e"]
+    if isinstance(e, dict) and e.get("k") == "binary" and e["op"] == "&&":
+        return _conjuncts(e["l"]) + _conjuncts(e["r"])
+    return [e]
